@@ -1276,6 +1276,7 @@ pub fn run(ctx: &mut Ctx) {
         "FacetTokenizer + filter chain (text buffer rewritten in place by filters) = model facetChain".into(),
         "SnippetGenerator::snippet: fragment, raw highlighted(), to_html() bytes (or panic) = model".into(),
         "collapse_overlapped_ranges = model collapse".into(),
+        "NgramTokenizer::new accepts / rejects (min, max) as the model's extracted guards do".into(),
         "SplitCompoundWords as the outermost filter of a reused analyzer = stateful model (parts buffer threaded through abandoned streams, cleared per the extracted token_stream shape)".into(),
         "history independence: one analyzer reused over a sequence of texts, streams abandoned after k tokens, gives for every text (a prefix of) the fresh-analyzer token list, which is the stateless model's".into(),
         "SnippetGenerator::create over a real index = SnippetGenerator::new with 1/(1+doc_freq) scores".into(),
@@ -1360,6 +1361,16 @@ pub fn run(ctx: &mut Ctx) {
     }
     for _ in 0..ctx.budget(300, 5_000) {
         pretokenized_case(ctx);
+    }
+    // NgramTokenizer::new accepts exactly what the model's guards (read from the source) accept
+    for (mn, mx) in [(0usize, 0usize), (0, 1), (1, 1), (1, 2), (2, 1), (3, 3), (4, 3), (5, 1000), (1, usize::MAX)] {
+        let real = if NgramTokenizer::new(mn, mx, false).is_ok() && NgramTokenizer::new(mn, mx, true).is_ok() { "ok" } else { "err" };
+        let m = ctx.model.ask(&format!("C19 ngramnew {mn} {mx}"));
+        ctx.report.case(&format!("ngramnew|{mn}|{mx}"), true);
+        ctx.report.count("ngram-constructor");
+        if m != real {
+            ctx.report.violation("model", "C19:ngram-constructor-guards-mismatch", format!("NgramTokenizer::new({mn}, {mx}, _) is {real}, the model's guards say {m}"), json!({"kind": "ngramnew", "min": mn, "max": mx}));
+        }
     }
     // corpus: a reused analyzer after a stream abandoned inside a split compound
     {
